@@ -1,5 +1,5 @@
 """C03 - positions: one definition of "line break" wherever positions are computed."""
-from ..rules import rxr
+from ..rules import rxr, treer
 
 
 def check(ctx, rep):
@@ -7,4 +7,7 @@ def check(ctx, rep):
     rxr.rx_11(ctx, rep)
     rxr.tree_8(ctx, rep)
     rxr.rx_10(ctx, rep)
+    # memoised position data must not survive an in-place incremental re-parse (positions are shifted by
+    # plain attribute writes there)
+    treer.tree_6(ctx, rep)
     rep.note('Not decided: the positions themselves (numeric).')
